@@ -40,6 +40,14 @@ def main():
             return rep.finish("replay of one recorded case", [])
     C.proof_stage(rep, "props/C15.v")
     K.correspondence(rep, "params", 1500 if thorough else 300, 8, tag="c15")
+    # overrides on nodes that have been used (Sewer, QueueGroundwater, Distribution, WWTW, FWTW): every later operation is
+    # compared with the node models, whose override is the object of the C15 node theorems
+    import corr_kinds  # noqa: F401
+    import corr_tarea  # noqa: F401
+    import corr_leak  # noqa: F401
+    import corr_wtw  # noqa: F401
+    for fam in ("tarea", "leak", "wtw"):
+        K.correspondence(rep, fam, 1200 if thorough else 150, 8, tag="c15", maxdigits=30)
     seen = mon_c15.run(rep, thorough)
     C.apply_known(rep, PID, {k: (k, "model", {"ops": [], "cls": "model"}, -1) for k in seen})
     return rep.finish(RULE, ["total_porosity non-zero (see C14)", "override values are legal constructor values",
